@@ -176,6 +176,13 @@ PROPS["C18"] = {
 }
 
 NOT_APPLICABLE = {
+    "C05": "not claimed. The algebra clauses (canonical text form, parse/print round trip, delta laws over 256x256 pairs) are pure functions of their input: no schedule, clock or fault for a simulator to decide. "
+           "The remaining clause (parties that replay change notifications converge to the authoritative permissions) is a simulation target, designed in DESIGN.md section 5 (C05), but its tracker clients / proxy topic were not built in the time available",
+    "C10": "not claimed: a simulation target (presence convergence at quiescence, leak predicate), designed in DESIGN.md section 5 (C10); the workload and oracle were not built in the time available. The online-counter clause is checked white-box by the C14 check",
+    "C16": "not claimed: a simulation target (upload/download handlers, link/GC histories under a simulated clock), designed in DESIGN.md section 5 (C16); not built in the time available",
+    "C17": "not claimed. The ring laws (order independence, totality, minimal movement over all key sets) are pure functions; the election-safety clauses are the model case for this technique and are designed as engine B "
+           "(DESIGN.md section 3: N real Cluster objects over a simulated RPC network), which was not built in the time available",
+    "C19": "not claimed. Query parsing, tag rewriting and tag normalisation are pure functions of one input; the clauses about histories of tag updates and masked/reserved namespaces (DESIGN.md section 5, C19) were not built in the time available",
     "C20": "pure functions of one input (id codecs, name spellings, JSON<->protobuf converters): no schedule, clock, fault, crash point or second party for a simulator to decide; see DESIGN.md section 6",
 }
 
